@@ -18,7 +18,7 @@ func init() {
 	register(&core.Property{
 		ID:    "C20",
 		Title: "Bound BydbQL parameters are data, never syntax",
-		Decides: "no static call path leads from the binding / bound-transformation entry points back to the query parser; every grammar field tagged as a placeholder position (@Param) is read by both the one-shot binder traversal and the prepared-statement traversal; the per-position count bounds of the binder, the preparer and the literal-path validator agree; Bind's kind switch covers every placeholder kind and rejects a count mismatch and nil values before any slot is filled; " +
+		Decides: "every error exit of the one-shot binder that lies after an in-place slot write first marks the grammar, so a half-bound grammar can never be bound again with fewer parameters; no static call path leads from the binding / bound-transformation entry points back to the query parser; every grammar field tagged as a placeholder position (@Param) is read by both the one-shot binder traversal and the prepared-statement traversal; the per-position count bounds of the binder, the preparer and the literal-path validator agree; Bind's kind switch covers every placeholder kind and rejects a count mismatch and nil values before any slot is filled; " +
 			"the prepared (cached) template is not written during Bind/TransformBound and value nodes are read through the overlay resolver on the bound path; the prepared-statement cache is keyed by the exact query text.; on both binding paths the error of every resolve*Param call reaches the caller: in the world where it is non-nil no success return and no further loop iteration is reachable (the error value is followed through phis, so a shadowed copy nobody looks at is reported); a bound timestamp is formatted with a layout that keeps the nanosecond field",
 		NotDecided: "equality of the produced request with the literal-quoted statement, parser correctness, time-format validation details.",
 		Technique:  "static call-graph unreachability, struct-tag vs field-read set agreement, constant-argument agreement across sibling traversals, local enum exhaustiveness, field-write confinement, SSA value identity of the cache key",
@@ -230,6 +230,56 @@ func runC20(c *core.Ctx) {
 		r.mustSeq(rule, f, exitOK(f), nil, call("(*"+ql+".binder).collect"), setBound)
 	}
 	r.Floor(rule, 4)
+
+	// 4b. the one-shot binder writes each accepted value into the grammar as it goes (its slots return only an
+	// error). A rejection after some slot has run therefore leaves earlier values in the tree, and the remaining
+	// placeholders would pass for the whole statement at the next bind: every such error exit must first mark the
+	// grammar (a true stored into one of its own flags) so that it can never be bound or transformed again (F50).
+	rule = "c20.failed-bind-unusable"
+	if f := r.fn(rule, ql, "BindParams"); f != nil {
+		errIface := func(t types.Type) bool { return t.String() == "error" }
+		var slotCalls []ssa.Instruction
+		for _, in := range ssax.Find(f, func(in ssa.Instruction) bool {
+			cl, ok := in.(*ssa.Call)
+			if !ok || cl.Call.IsInvoke() {
+				return false
+			}
+			switch cl.Call.Value.(type) {
+			case *ssa.Function, *ssa.Builtin, *ssa.MakeClosure:
+				return false
+			}
+			return errIface(cl.Type())
+		}) {
+			slotCalls = append(slotCalls, in)
+		}
+		mark := func(in ssa.Instruction) bool {
+			st, ok := in.(*ssa.Store)
+			if !ok || !strings.Contains(ssax.FieldQName(st.Addr), ql+".Grammar.") {
+				return false
+			}
+			k, isC := st.Val.(*ssa.Const)
+			return isC && k.Value != nil && k.Value.ExactString() == "true"
+		}
+		okExit := ssax.SuccessExit(f)
+		errExit := func(in ssa.Instruction) bool { return ssax.IsReturn(in) && !okExit(in) }
+		if len(slotCalls) == 0 {
+			r.Hold(rule, ssax.FuncName(f)+": no slot writes in place", r.fpos(f), "no closure call returning only an error: the binder does not write values while it validates")
+		}
+		for i, sc := range slotCalls {
+			construct := fmt.Sprintf("%s: a rejection after slot call #%d marks the grammar", ssax.FuncName(f), i+1)
+			sc := sc
+			if _, _, reach := (ssax.Search{Target: func(in ssa.Instruction) bool { return in == sc }, Avoid: mark}).From(f, nil); !reach {
+				r.Hold(rule, construct, r.pos(sc), "the grammar is marked before the slot runs")
+				continue
+			}
+			if tgt, path, found := (ssax.Search{Target: errExit, Avoid: mark}).From(f, sc); found {
+				r.Violate(rule, construct, r.pos(tgt), fmt.Sprintf("the error return at %s is reachable after the slot call at %s wrote a value into the grammar, with no flag set (%s): the half-bound grammar accepts a later bind with fewer parameters and produces a request mixing two parameter lists", r.pos(tgt), r.pos(sc), blocksStr(path)))
+			} else {
+				r.Hold(rule, construct, r.pos(sc), "")
+			}
+		}
+	}
+	r.Floor(rule, 1)
 
 	// 5. the prepared template is immutable on the bound path
 	rule = "c20.template-immutable"
